@@ -32,7 +32,14 @@ fn bad_mid_picture(std: bool) -> Vec<u8> {
     for b in blocks.iter_mut() {
         b.ev = vec![ev_auto(false, 0, 9, false), ev_auto(true, 2, -7, false)];
     }
-    let p = Pic { hdr, mbs: vec![Mb::Coded { kind: Kind::Intra, dquant: 0, mvd: vec![], blocks }, Mb::Raw(vec![true, false, false, true, true, false, false, false, false, false, false, false, false])] };
+    // second macroblock: INTRA, no coded luma blocks; three bright DC-only blocks are stored, the fourth
+    // block carries the forbidden INTRADC code 0
+    let mut raw = vec![true, false, false, true, true];
+    for _ in 0..3 {
+        raw.extend([true, true, true, true, true, false, true, false]);
+    }
+    raw.extend([false; 12]);
+    let p = Pic { hdr, mbs: vec![Mb::Coded { kind: Kind::Intra, dquant: 0, mvd: vec![], blocks }, Mb::Raw(raw)] };
     encode_bytes(&p)
 }
 
